@@ -1,6 +1,678 @@
-//! C43 — not implemented yet.
-use mc_core::Ctx;
+//! C43 — non-fungible ids are never reused and data changes are restricted.
+//!
+//! Multi-transaction history exploration (`mc_core::bfs`): every action is one transaction on the real engine,
+//! states are forked through ledger snapshots and de-duplicated by a fingerprint of the REAL resource state
+//! (per id: data entry present / removed / locked, content, vault membership; recorded supply). Three resources
+//! (integer ids, string ids, RUID), each with data `{name (immutable), level (mutable)}`, everything publicly
+//! mintable / burnable / updatable, all held by one account.
+//!
+//! Reference model: list `ever` of ever-minted ids, set `live`, data map. Demands taken from the statement:
+//!  * MustFail: minting an id that was ever minted (also after its burn, also as part of a batch — and the batch
+//!    must then mint nothing); minting an id whose type is not the resource's id type (explicit id of another type,
+//!    RUID mint on a non-RUID resource); updating the immutable field or an undeclared field;
+//!  * after EVERY transaction: all ids present (vault, data store) have the resource's id type; the ids in the
+//!    vault are exactly the model's live ids; immutable data of live ids equals what was minted; RUID mints produce
+//!    exactly the requested number of ids, all new with respect to everything ever minted on the path;
+//!  * ShouldPass (fully defined): mint of a fresh id, burn of a live id, update of the mutable field of a live id
+//!    with a value of the right type (and it reads back), `get` of a live id returns the model's data;
+//!  * Either (informational): `exists` answers, `get` of burned ids, updates with a wrongly typed value, burning
+//!    or updating ids that are not live, minting an explicit RUID-typed id into the RUID resource.
+//!
+//! For the RUID resource ids are random, so actions address "the k-th smallest id ever present" (k = 0,1), a
+//! function of the real state only.
+use mc_core::{bfs, BfsStats, Ctx, Level, Machine};
+use mc_ledger::*;
+use radix_engine::blueprints::resource::*;
+use radix_engine::system::system_db_reader::SystemDatabaseReader;
+use radix_engine::system::system_substates::KeyValueEntrySubstate;
+use radix_substate_store_interface::interface::SubstateDatabaseExtensions;
+use serde_json::{json, Value};
+use std::collections::{BTreeMap, BTreeSet};
 
-pub fn run(_ctx: Ctx) -> ! {
-    mc_core::machinery_error("C43: not implemented")
+#[derive(Clone, Copy, Debug, PartialEq, Eq, PartialOrd, Ord)]
+pub enum Kind {
+    Int,
+    Str,
+    Ruid,
+}
+
+impl Kind {
+    fn id_type(&self) -> NonFungibleIdType {
+        match self {
+            Kind::Int => NonFungibleIdType::Integer,
+            Kind::Str => NonFungibleIdType::String,
+            Kind::Ruid => NonFungibleIdType::RUID,
+        }
+    }
+}
+
+#[derive(Clone, Copy, Debug, PartialEq, Eq, PartialOrd, Ord)]
+pub enum Field {
+    Level,
+    Name,
+    Foo,
+}
+
+#[derive(Clone, Copy, Debug, PartialEq, Eq, PartialOrd, Ord)]
+pub enum Op {
+    /// explicit mint of universe id `slot` with data variant v (name "v<v>", level v)
+    Mint(u8, u8),
+    /// explicit mint of slots 0 and 1 in one call
+    MintBoth,
+    /// explicit mint of an id of a foreign id type: 0 integer, 1 string, 2 bytes, 3 RUID
+    MintWrong(u8),
+    /// mint_ruid with n entries
+    MintRuid(u8),
+    MintSingleRuid,
+    /// explicit mint of a fixed RUID-typed id (RUID resource only)
+    MintExplicitRuid,
+    BurnBucket(u8),
+    BurnVault(u8),
+    /// (slot, field, value has the right type)
+    Update(u8, Field, bool),
+    Get(u8),
+    Exists(u8),
+}
+
+const UPDATED_LEVEL: u32 = 9;
+
+#[derive(Clone, Debug, PartialEq, Eq)]
+enum Entry {
+    /// data present: (name, level) when it decodes as the data struct, raw rendering otherwise
+    Data(Result<(String, u32), String>, bool),
+    /// entry exists without value; bool = locked (tombstone)
+    Empty(bool),
+}
+
+/// What the real database shows for one resource.
+#[derive(Clone, Debug, PartialEq, Eq, Default)]
+struct Scan {
+    entries: BTreeMap<NonFungibleLocalId, Entry>,
+    vault: BTreeSet<NonFungibleLocalId>,
+    supply: Option<Decimal>,
+}
+
+#[derive(Clone, Debug, Default)]
+struct Model {
+    ever: BTreeSet<NonFungibleLocalId>,
+    live: BTreeSet<NonFungibleLocalId>,
+    data: BTreeMap<NonFungibleLocalId, (String, u32)>,
+}
+
+pub struct St {
+    sim: Sim,
+    model: Model,
+    scan: Scan,
+    /// the engine accepted something the model has no semantics for (informational); not explored further
+    undefined: bool,
+}
+
+pub struct NfMachine {
+    root: Snap,
+    kind: Kind,
+    a: ComponentAddress,
+    res: ResourceAddress,
+    data_partition: PartitionNumber,
+    /// explicit-id universe (empty for RUID)
+    universe: Vec<NonFungibleLocalId>,
+}
+
+fn sim_from(snap: &Snap) -> Sim {
+    LedgerSimulatorBuilder::new().without_kernel_trace().without_receipt_substate_check().build_from_snapshot(snap.clone())
+}
+
+fn nf_roles() -> NonFungibleResourceRoles {
+    NonFungibleResourceRoles {
+        mint_roles: mint_roles! { minter => rule!(allow_all); minter_updater => rule!(deny_all); },
+        burn_roles: burn_roles! { burner => rule!(allow_all); burner_updater => rule!(deny_all); },
+        non_fungible_data_update_roles: non_fungible_data_update_roles! { non_fungible_data_updater => rule!(allow_all); non_fungible_data_updater_updater => rule!(deny_all); },
+        ..Default::default()
+    }
+}
+
+pub struct World43 {
+    snap: Snap,
+    a: ComponentAddress,
+    int: ResourceAddress,
+    string: ResourceAddress,
+    ruid: ResourceAddress,
+}
+
+pub fn build_world43() -> World43 {
+    let mut sim = LedgerSimulatorBuilder::new().without_kernel_trace().without_receipt_substate_check().build();
+    let a = sim.new_account_advanced(OwnerRole::Fixed(rule!(allow_all)));
+    let mut mk = |sim: &mut Sim, t: Option<NonFungibleIdType>| {
+        let b = ManifestBuilder::new().lock_fee_from_faucet();
+        let b = match t {
+            Some(t) => b.create_non_fungible_resource(OwnerRole::None, t, true, nf_roles(), metadata!(), None::<Vec<(NonFungibleLocalId, NfData)>>),
+            None => b.create_ruid_non_fungible_resource(OwnerRole::None, true, metadata!(), nf_roles(), None::<Vec<NfData>>),
+        };
+        sim.execute_manifest(b.build(), vec![]).expect_commit(true).new_resource_addresses()[0]
+    };
+    let int = mk(&mut sim, Some(NonFungibleIdType::Integer));
+    let string = mk(&mut sim, Some(NonFungibleIdType::String));
+    let ruid = mk(&mut sim, None);
+    World43 { snap: sim.create_snapshot(), a, int, string, ruid }
+}
+
+fn fixed_ruid() -> NonFungibleLocalId {
+    NonFungibleLocalId::ruid([0x5a; 32])
+}
+
+impl NfMachine {
+    pub fn new(w: &World43, kind: Kind, n_ids: usize) -> NfMachine {
+        let (res, universe): (ResourceAddress, Vec<NonFungibleLocalId>) = match kind {
+            Kind::Int => (w.int, (1..=n_ids as u64).map(NonFungibleLocalId::integer).collect()),
+            Kind::Str => (w.string, ["a", "b", "c"][..n_ids].iter().map(|s| NonFungibleLocalId::string(*s).unwrap()).collect()),
+            Kind::Ruid => (w.ruid, vec![]),
+        };
+        let sim = sim_from(&w.snap);
+        let data_partition = SystemDatabaseReader::new(sim.substate_db())
+            .get_partition_of_collection(res.as_node_id(), ModuleId::Main, NonFungibleResourceManagerCollection::DataKeyValue.collection_index())
+            .expect("data partition");
+        NfMachine { root: w.snap.clone(), kind, a: w.a, res, data_partition, universe }
+    }
+
+    fn scan(&self, sim: &mut Sim) -> Scan {
+        let mut s = Scan::default();
+        for (key, sub) in sim.substate_db().list_map_values::<KeyValueEntrySubstate<ScryptoValue>>(self.res.as_node_id(), self.data_partition, None::<SubstateKey>) {
+            let id: NonFungibleLocalId = scrypto_decode(&key).expect("data key is a local id");
+            let locked = sub.is_locked();
+            let e = match sub.into_value() {
+                Some(v) => {
+                    let bytes = scrypto_encode(&v).unwrap();
+                    let d = scrypto_decode::<NfData>(&bytes).map(|d| (d.name, d.level)).map_err(|_| format!("{v:?}"));
+                    Entry::Data(d, locked)
+                }
+                None => Entry::Empty(locked),
+            };
+            s.entries.insert(id, e);
+        }
+        for v in sim.get_component_vaults(self.a, self.res) {
+            if let Some((_, it)) = sim.inspect_non_fungible_vault(v) {
+                s.vault.extend(it);
+            }
+        }
+        s.supply = SystemDatabaseReader::new(sim.substate_db())
+            .read_typed_object_field::<NonFungibleResourceManagerTotalSupplyFieldPayload>(self.res.as_node_id(), ModuleId::Main, NonFungibleResourceManagerField::TotalSupply.field_index())
+            .ok()
+            .map(|p| p.fully_update_and_into_latest_version());
+        s
+    }
+
+    /// id addressed by `slot` in this state (None = op not enabled)
+    fn slot_id(&self, st: &St, slot: u8) -> Option<NonFungibleLocalId> {
+        match self.kind {
+            Kind::Ruid => {
+                let all: BTreeSet<&NonFungibleLocalId> = st.scan.entries.keys().chain(st.scan.vault.iter()).collect();
+                all.into_iter().nth(slot as usize).cloned()
+            }
+            _ => self.universe.get(slot as usize).cloned(),
+        }
+    }
+
+    fn wrong_id(&self, w: u8) -> Option<NonFungibleLocalId> {
+        let (t, id) = match w {
+            0 => (NonFungibleIdType::Integer, NonFungibleLocalId::integer(1)),
+            1 => (NonFungibleIdType::String, NonFungibleLocalId::string("a").unwrap()),
+            2 => (NonFungibleIdType::Bytes, NonFungibleLocalId::bytes(vec![1u8]).unwrap()),
+            _ => (NonFungibleIdType::RUID, fixed_ruid()),
+        };
+        if t == self.kind.id_type() {
+            None
+        } else {
+            Some(id)
+        }
+    }
+
+    fn data(v: u8) -> NfData {
+        NfData { name: format!("v{v}"), level: v as u32 }
+    }
+
+    fn manifest(&self, st: &St, op: &Op) -> TransactionManifestV1 {
+        let b = ManifestBuilder::new().lock_fee_from_faucet();
+        let id = |s: u8| self.slot_id(st, s).expect("op enabled only when the slot exists");
+        let b = match *op {
+            Op::Mint(s, v) => b.mint_non_fungible(self.res, [(id(s), Self::data(v))]).deposit_entire_worktop(self.a),
+            Op::MintBoth => b.mint_non_fungible(self.res, [(id(0), Self::data(0)), (id(1), Self::data(0))]).deposit_entire_worktop(self.a),
+            Op::MintWrong(w) => b.mint_non_fungible(self.res, [(self.wrong_id(w).unwrap(), Self::data(0))]).deposit_entire_worktop(self.a),
+            Op::MintRuid(n) => b.mint_ruid_non_fungible(self.res, (0..n).map(|_| Self::data(0)).collect::<Vec<_>>()).deposit_entire_worktop(self.a),
+            Op::MintSingleRuid => b.call_method(self.res, NON_FUNGIBLE_RESOURCE_MANAGER_MINT_SINGLE_RUID_IDENT, (Self::data(1),)).deposit_entire_worktop(self.a),
+            Op::MintExplicitRuid => b.mint_non_fungible(self.res, [(fixed_ruid(), Self::data(0))]).deposit_entire_worktop(self.a),
+            Op::BurnBucket(s) => b.withdraw_non_fungibles_from_account(self.a, self.res, [id(s)]).burn_all_from_worktop(self.res),
+            Op::BurnVault(s) => b.burn_non_fungible_in_account(self.a, NonFungibleGlobalId::new(self.res, id(s))),
+            Op::Update(s, f, right) => {
+                let field = match f {
+                    Field::Level => "level",
+                    Field::Name => "name",
+                    Field::Foo => "foo",
+                };
+                // right type for level: u32, for name: String; unknown field: any value
+                match (f, right) {
+                    (Field::Level, true) | (Field::Name, false) | (Field::Foo, true) => b.update_non_fungible_data(self.res, id(s), field, UPDATED_LEVEL),
+                    _ => b.update_non_fungible_data(self.res, id(s), field, "zz".to_string()),
+                }
+            }
+            Op::Get(s) => b.call_method(self.res, NON_FUNGIBLE_RESOURCE_MANAGER_GET_NON_FUNGIBLE_IDENT, (id(s),)),
+            Op::Exists(s) => b.call_method(self.res, NON_FUNGIBLE_RESOURCE_MANAGER_EXISTS_IDENT, (id(s),)),
+        };
+        b.build()
+    }
+
+    /// invariants of the statement on the real state vs the model
+    fn invariants(&self, scan: &Scan, model: &Model) -> Result<(), (String, String)> {
+        let t = self.kind.id_type();
+        for id in scan.entries.keys().chain(scan.vault.iter()) {
+            if id.id_type() != t {
+                return Err(("id-of-wrong-type-present".into(), format!("id {id} of type {:?} exists in a resource with id type {t:?}", id.id_type())));
+            }
+        }
+        if scan.vault != model.live {
+            return Err(("live-ids-differ-from-model".into(), format!("ids in the vault {:?}, model live ids {:?}", scan.vault, model.live)));
+        }
+        for id in &model.live {
+            let (name, level) = &model.data[id];
+            match scan.entries.get(id) {
+                Some(Entry::Data(Ok((n, l)), _)) => {
+                    if n != name {
+                        return Err(("immutable-field-changed".into(), format!("id {id}: immutable field name is {n:?}, minted as {name:?}")));
+                    }
+                    if l != level {
+                        return Err(("data-differs-from-model".into(), format!("id {id}: level is {l}, model {level}")));
+                    }
+                }
+                other => return Err(("live-id-without-data".into(), format!("id {id} is live but its data entry is {other:?}"))),
+            }
+        }
+        Ok(())
+    }
+}
+
+fn outputs_of(r: &TransactionReceipt) -> Vec<InstructionOutput> {
+    match &r.result {
+        TransactionResult::Commit(c) => match &c.outcome {
+            TransactionOutcome::Success(o) => o.clone(),
+            _ => vec![],
+        },
+        _ => vec![],
+    }
+}
+
+impl Machine for NfMachine {
+    type Op = Op;
+    type St = St;
+
+    fn init(&self) -> St {
+        let mut sim = sim_from(&self.root);
+        let scan = self.scan(&mut sim);
+        St { sim, model: Model::default(), scan, undefined: false }
+    }
+
+    fn fork(&self, st: &St) -> Option<St> {
+        Some(St { sim: sim_from(&st.sim.create_snapshot()), model: st.model.clone(), scan: st.scan.clone(), undefined: st.undefined })
+    }
+
+    fn ops(&self, st: &St, _depth: usize) -> Vec<Op> {
+        let mut v = vec![];
+        let slots: Vec<u8> = match self.kind {
+            Kind::Ruid => (0..2u8).filter(|s| self.slot_id(st, *s).is_some()).collect(),
+            _ => (0..self.universe.len() as u8).collect(),
+        };
+        if self.kind != Kind::Ruid {
+            for s in &slots {
+                v.push(Op::Mint(*s, 0));
+                v.push(Op::Mint(*s, 1));
+            }
+            v.push(Op::MintBoth);
+        }
+        for w in 0..4u8 {
+            if self.wrong_id(w).is_some() {
+                v.push(Op::MintWrong(w));
+            }
+        }
+        v.push(Op::MintRuid(1));
+        if self.kind == Kind::Ruid {
+            v.push(Op::MintRuid(2));
+            v.push(Op::MintExplicitRuid);
+        }
+        v.push(Op::MintSingleRuid);
+        for s in &slots {
+            v.push(Op::BurnBucket(*s));
+            v.push(Op::BurnVault(*s));
+            v.push(Op::Update(*s, Field::Level, true));
+            v.push(Op::Update(*s, Field::Level, false));
+            v.push(Op::Update(*s, Field::Name, true));
+            v.push(Op::Update(*s, Field::Name, false));
+            v.push(Op::Update(*s, Field::Foo, true));
+            v.push(Op::Get(*s));
+            v.push(Op::Exists(*s));
+        }
+        v
+    }
+
+    fn step(&self, st: &mut St, op: &Op) -> Result<String, (String, String)> {
+        let manifest = self.manifest(st, op);
+        let before = st.scan.clone();
+        let receipt = match exec(&mut st.sim, manifest, vec![]) {
+            Ok(r) => r,
+            Err(p) => return Err((format!("panic@{}", mc_core::last_panic_location()), format!("{op:?} panicked: {p}"))),
+        };
+        let ok = is_success(&receipt);
+        if !ok && !is_commit_failure(&receipt) {
+            return Err(("not-committed".into(), format!("{op:?}: {}", receipt_class(&receipt))));
+        }
+        let fail = failure_text(&receipt);
+        let after = self.scan(&mut st.sim);
+        let slot = |s: u8| -> NonFungibleLocalId {
+            match self.kind {
+                Kind::Ruid => {
+                    let all: BTreeSet<&NonFungibleLocalId> = before.entries.keys().chain(before.vault.iter()).collect();
+                    all.into_iter().nth(s as usize).cloned().expect("slot")
+                }
+                _ => self.universe[s as usize].clone(),
+            }
+        };
+        let mut undefined = false;
+        let m = &mut st.model;
+        let must_fail = |why: &str| -> Result<String, (String, String)> {
+            if ok {
+                Err((format!("should-have-failed:{why}"), format!("{op:?} must fail ({why}) but the engine committed it successfully")))
+            } else {
+                Ok(format!("rejected:{why}"))
+            }
+        };
+        let should_pass = |what: &str| -> Result<(), (String, String)> {
+            if ok {
+                Ok(())
+            } else {
+                Err((format!("unexpected-failure:{what}"), format!("{op:?} is fully defined and must succeed, the engine failed it: {fail}")))
+            }
+        };
+        let class: String = match *op {
+            Op::Mint(s, v) => {
+                let i = slot(s);
+                if m.ever.contains(&i) {
+                    must_fail(if m.live.contains(&i) { "mint-of-live-id" } else { "mint-of-burned-id" })?
+                } else {
+                    should_pass("mint-of-fresh-id")?;
+                    m.ever.insert(i.clone());
+                    m.live.insert(i.clone());
+                    let d = Self::data(v);
+                    m.data.insert(i, (d.name, d.level));
+                    "minted".into()
+                }
+            }
+            Op::MintBoth => {
+                let (i0, i1) = (slot(0), slot(1));
+                if m.ever.contains(&i0) || m.ever.contains(&i1) {
+                    must_fail("batch-mint-containing-ever-minted-id")?
+                } else {
+                    should_pass("mint-of-fresh-ids")?;
+                    for i in [i0, i1] {
+                        m.ever.insert(i.clone());
+                        m.live.insert(i.clone());
+                        let d = Self::data(0);
+                        m.data.insert(i, (d.name, d.level));
+                    }
+                    "minted-batch".into()
+                }
+            }
+            Op::MintWrong(_) => must_fail("mint-of-wrong-id-type")?,
+            Op::MintRuid(_) | Op::MintSingleRuid if self.kind != Kind::Ruid => must_fail("ruid-mint-on-non-ruid-resource")?,
+            Op::MintRuid(_) | Op::MintSingleRuid => {
+                let n = if let Op::MintRuid(n) = op { *n as usize } else { 1 };
+                should_pass("ruid-mint")?;
+                let new: BTreeSet<NonFungibleLocalId> = after.vault.difference(&before.vault).cloned().collect();
+                if new.len() != n {
+                    return Err(("ruid-mint-count".into(), format!("{op:?} produced {} new ids, expected {n}", new.len())));
+                }
+                for i in &new {
+                    if m.ever.contains(i) || before.entries.contains_key(i) {
+                        return Err(("ruid-collision".into(), format!("{op:?} produced id {i} which was already minted on this path")));
+                    }
+                }
+                let d = Self::data(if matches!(op, Op::MintSingleRuid) { 1 } else { 0 });
+                for i in new {
+                    m.ever.insert(i.clone());
+                    m.live.insert(i.clone());
+                    m.data.insert(i, (d.name.clone(), d.level));
+                }
+                "minted-ruid".into()
+            }
+            Op::MintExplicitRuid => {
+                let i = fixed_ruid();
+                if m.ever.contains(&i) {
+                    must_fail("mint-of-ever-minted-id")?
+                } else if ok {
+                    m.ever.insert(i.clone());
+                    m.live.insert(i.clone());
+                    let d = Self::data(0);
+                    m.data.insert(i, (d.name, d.level));
+                    "silent:explicit-ruid-mint-accepted".into()
+                } else {
+                    "silent:explicit-ruid-mint-rejected".into()
+                }
+            }
+            Op::BurnBucket(s) | Op::BurnVault(s) => {
+                let i = slot(s);
+                if m.live.contains(&i) {
+                    should_pass("burn-of-live-id")?;
+                    m.live.remove(&i);
+                    m.data.remove(&i);
+                    "burned".into()
+                } else if ok {
+                    return Err(("burn-of-non-live-id-succeeded".into(), format!("{op:?}: id {i} is not live in the model but the burn succeeded")));
+                } else {
+                    "silent:burn-of-non-live-id-rejected".into()
+                }
+            }
+            Op::Update(s, f, right) => {
+                let i = slot(s);
+                match f {
+                    Field::Name => must_fail("update-of-immutable-field")?,
+                    Field::Foo => must_fail("update-of-undeclared-field")?,
+                    Field::Level => {
+                        if !right {
+                            if ok {
+                                // a wrongly typed value was stored: outside the statement; the model cannot follow
+                                undefined = true;
+                                "silent:wrongly-typed-update-accepted".into()
+                            } else {
+                                "silent:wrongly-typed-update-rejected".into()
+                            }
+                        } else if m.live.contains(&i) {
+                            should_pass("update-of-mutable-field")?;
+                            m.data.get_mut(&i).unwrap().1 = UPDATED_LEVEL;
+                            "updated".into()
+                        } else if ok {
+                            return Err(("update-of-non-live-id-succeeded".into(), format!("{op:?}: id {i} is not live in the model but the update succeeded")));
+                        } else {
+                            "silent:update-of-non-live-id-rejected".into()
+                        }
+                    }
+                }
+            }
+            Op::Get(s) => {
+                let i = slot(s);
+                if m.live.contains(&i) {
+                    should_pass("get-of-live-id")?;
+                    let out = outputs_of(&receipt);
+                    let got: Option<NfData> = match out.get(1) {
+                        Some(InstructionOutput::CallReturn(b)) => scrypto_decode(b).ok(),
+                        _ => None,
+                    };
+                    let want = &m.data[&i];
+                    match got {
+                        Some(d) if d.name == want.0 && d.level == want.1 => "get:model-data".into(),
+                        Some(d) if d.name != want.0 => return Err(("immutable-field-changed".into(), format!("get of {i} returned name {:?}, minted as {:?}", d.name, want.0))),
+                        other => return Err(("data-differs-from-model".into(), format!("get of {i} returned {other:?}, model {want:?}"))),
+                    }
+                } else if ok {
+                    if m.ever.contains(&i) {
+                        "silent:get-of-burned-id-answered".into()
+                    } else {
+                        "silent:get-of-never-minted-id-answered".into()
+                    }
+                } else {
+                    "get:not-found".into()
+                }
+            }
+            Op::Exists(s) => {
+                let i = slot(s);
+                should_pass("exists-query")?;
+                let out = outputs_of(&receipt);
+                let got: Option<bool> = match out.get(1) {
+                    Some(InstructionOutput::CallReturn(b)) => scrypto_decode(b).ok(),
+                    _ => None,
+                };
+                match (got, m.live.contains(&i)) {
+                    (Some(a), b) if a == b => format!("exists:{a}"),
+                    (g, b) => format!("silent:exists-answer-{g:?}-model-live-{b}"),
+                }
+            }
+        };
+        st.undefined |= undefined;
+        if !st.undefined {
+            self.invariants(&after, &st.model)?;
+        }
+        st.scan = after;
+        Ok(format!("{}:{class}", op_label(op)))
+    }
+
+    fn terminal(&self, st: &St) -> bool {
+        st.undefined
+    }
+
+    fn fingerprint(&self, st: &St) -> Vec<u8> {
+        // the REAL state; for the RUID resource ids are replaced by their rank (ids are random per history)
+        let mut s = String::new();
+        let all: BTreeSet<&NonFungibleLocalId> = st.scan.entries.keys().chain(st.scan.vault.iter()).collect();
+        for (rank, id) in all.into_iter().enumerate() {
+            let name = if self.kind == Kind::Ruid { format!("#{rank}") } else { id.to_string() };
+            s.push_str(&format!("{name}={:?}/{};", st.scan.entries.get(id), st.scan.vault.contains(id)));
+        }
+        s.push_str(&format!("supply={:?}", st.scan.supply));
+        s.into_bytes()
+    }
+}
+
+fn op_label(op: &Op) -> &'static str {
+    match op {
+        Op::Mint(..) => "mint",
+        Op::MintBoth => "mint-batch",
+        Op::MintWrong(_) => "mint-wrong-type",
+        Op::MintRuid(_) => "mint-ruid",
+        Op::MintSingleRuid => "mint-single-ruid",
+        Op::MintExplicitRuid => "mint-explicit-ruid",
+        Op::BurnBucket(_) => "burn-from-bucket",
+        Op::BurnVault(_) => "burn-in-vault",
+        Op::Update(_, Field::Level, true) => "update-mutable",
+        Op::Update(_, Field::Level, false) => "update-mutable-wrong-type",
+        Op::Update(_, Field::Name, _) => "update-immutable",
+        Op::Update(_, Field::Foo, _) => "update-undeclared",
+        Op::Get(_) => "get",
+        Op::Exists(_) => "exists",
+    }
+}
+
+pub fn run(ctx: Ctx) -> ! {
+    let w = build_world43();
+    if ctx.replay.is_some() {
+        replay(ctx, &w);
+    }
+    // (kind, ids in the universe, max depth, wall cap)
+    let plan: Vec<(Kind, usize, usize, f64)> = if ctx.quick() {
+        vec![(Kind::Int, 2, 16, 40.0), (Kind::Str, 2, 16, 40.0), (Kind::Ruid, 0, 4, 60.0)]
+    } else {
+        vec![(Kind::Int, 3, 24, 600.0), (Kind::Str, 3, 24, 600.0), (Kind::Ruid, 0, 6, 600.0)]
+    };
+    let mut total = BfsStats::default();
+    let mut per = vec![];
+    let mut exhaustive = true;
+    for (kind, n, depth, cap) in plan {
+        let m = NfMachine::new(&w, kind, n);
+        let tag = format!("{kind:?}-ids{n}");
+        let s = bfs(&ctx, &m, &tag, depth, 5_000_000, cap);
+        let fix = !s.capped && (s.per_depth_states.last() == Some(&0) || s.depth_completed == depth && s.max_depth < depth);
+        per.push(json!({"resource": tag, "states": s.states, "transitions": s.transitions, "max_depth": s.max_depth, "depth_bound": depth, "fixpoint_reached": fix, "capped": s.capped, "per_depth_new_states": s.per_depth_states}));
+        exhaustive &= !s.capped;
+        total.add(&s);
+    }
+    let mut cov = total.coverage();
+    cov.insert("per_resource".into(), json!(per));
+    ctx.finish(
+        Level::ModelChecking,
+        "breadth-first over all histories of mint / burn / update / query transactions per resource on the real engine (fork through ledger snapshots); states de-duplicated by a fingerprint of the real data store, vault and supply; for the explicit-id resources the search runs to the fixpoint (no new state), i.e. all histories of any length over the alphabet are covered; the RUID resource is depth bounded; non-trivial = distinct real states",
+        total.states,
+        exhaustive,
+        cov,
+        &[
+            "states with equal data-store entries (value, lock flag), vault membership and supply are merged; transaction hashes and fee balances differ only",
+            "for the RUID resource, ids are addressed and fingerprinted by rank because their values are derived from the transaction hash",
+            "all roles are allow_all: authorisation is C08's subject",
+        ],
+    )
+}
+
+fn parse_op(s: &str) -> Option<Op> {
+    let (name, rest) = match s.find('(') {
+        Some(i) => (&s[..i], &s[i + 1..s.len() - 1]),
+        None => (s, ""),
+    };
+    let parts: Vec<&str> = rest.split(',').map(|x| x.trim()).filter(|x| !x.is_empty()).collect();
+    let n = |i: usize| parts.get(i).and_then(|x| x.parse::<u8>().ok());
+    Some(match name {
+        "Mint" => Op::Mint(n(0)?, n(1)?),
+        "MintBoth" => Op::MintBoth,
+        "MintWrong" => Op::MintWrong(n(0)?),
+        "MintRuid" => Op::MintRuid(n(0)?),
+        "MintSingleRuid" => Op::MintSingleRuid,
+        "MintExplicitRuid" => Op::MintExplicitRuid,
+        "BurnBucket" => Op::BurnBucket(n(0)?),
+        "BurnVault" => Op::BurnVault(n(0)?),
+        "Update" => Op::Update(
+            n(0)?,
+            match *parts.get(1)? {
+                "Level" => Field::Level,
+                "Name" => Field::Name,
+                _ => Field::Foo,
+            },
+            *parts.get(2)? == "true",
+        ),
+        "Get" => Op::Get(n(0)?),
+        "Exists" => Op::Exists(n(0)?),
+        _ => return None,
+    })
+}
+
+fn replay(ctx: Ctx, w: &World43) -> ! {
+    let case: Value = ctx.read_replay_case().unwrap();
+    let tag = case.get("base").and_then(|b| b.as_str()).unwrap_or("Int-ids2").to_string();
+    let kind = if tag.starts_with("Int") {
+        Kind::Int
+    } else if tag.starts_with("Str") {
+        Kind::Str
+    } else {
+        Kind::Ruid
+    };
+    let n = tag.chars().last().and_then(|c| c.to_digit(10)).unwrap_or(2) as usize;
+    let m = NfMachine::new(w, kind, n);
+    let hist: Vec<Op> = case
+        .get("history")
+        .and_then(|h| h.as_array())
+        .map(|a| a.iter().filter_map(|x| x.as_str().and_then(parse_op)).collect())
+        .unwrap_or_else(|| mc_core::machinery_error("replay case has no history"));
+    let mut st = m.init();
+    for (i, op) in hist.iter().enumerate() {
+        match m.step(&mut st, op) {
+            Ok(c) => println!("step {i} {op:?}: {c}"),
+            Err((k, what)) => {
+                println!("step {i} {op:?}: VIOLATION {k}: {what}");
+                ctx.violation(k, what, case.clone());
+                break;
+            }
+        }
+    }
+    println!("real state after replay: {:?}", st.scan);
+    ctx.finish(Level::ModelChecking, "replay", 0, false, serde_json::Map::new(), &[])
 }
